@@ -65,11 +65,14 @@ LEVEL_TEXT = {
 LEVEL_TEXT["C15"] = {
     "text": "Theorems over all tables and offsets: get_raw succeeds iff a NUL lies at or after off inside the table and then returns "
             "exactly the window [off, first NUL) of the table (same buffer, absolute position); otherwise BadOffset (empty table or "
-            "off > len) / StringTableMissingNul (incl. off = len); get = get_raw filtered by the Unicode Table 3-7 validator. Tied to "
-            "string_table.rs by differential runs (exhaustive tables over a 4-symbol alphabet, random tables) and the UTF-8 validator "
-            "is compared with core::str::from_utf8.",
+            "off > len) / StringTableMissingNul (incl. off = len); get = get_raw filtered by the validator, and the validator (Unicode "
+            "Table 3-7 byte ranges, as core::str::from_utf8 implements) is proved equal to an independent arithmetic definition: "
+            "valid_utf8_spec - it accepts exactly the concatenations of RFC 3629 encodings of Unicode scalar values (no overlong forms, "
+            "no surrogates, nothing above U+10FFFF, no stray or missing continuation bytes); get_utf8_spec restates get() with it. Tied to "
+            "string_table.rs by differential runs (exhaustive tables over a 4-symbol alphabet, random tables) and the validator is compared "
+            "with core::str::from_utf8.",
     "note": COMMON_NOTE + " core::str::from_utf8 is modelled by validUtf8 (validated differentially, incl. all 1-2 byte sequences in thorough).",
-    "technique": "Lean 4 proof over executable model + differential correspondence + naive-scan oracle",
+    "technique": "Lean 4 proof over executable model (incl. validator = scalar-value encoding spec) + differential correspondence + naive-scan oracle",
 }
 LEVEL_TEXT["C10"] = {
     "text": "Theorem parse_ident_spec: for every buffer and every spec, parse_ident equals the ABI specification function (length, magic, "
